@@ -1060,8 +1060,12 @@ impl World {
     fn op_refresh(&mut self, r: usize, kind: u8) -> Res {
         let m_staging = { let m = self.live(r); self.call("has_staging", || m.has_staging())? };
         let before = if m_staging || self.is(&["C12", "C15"]) { Some(self.digest_of(r)?) } else { None };
-        let applied_before: BTreeSet<String> = api::block_status(self.live(r)).into_iter().filter(|(_, s)| s == "applied").map(|(k, _)| k).collect();
+        let status_before = api::block_status(self.live(r));
+        let applied_before: BTreeSet<String> = status_before.iter().filter(|(_, s)| s.as_str() == "applied").map(|(k, _)| k.clone()).collect();
         let keys_now = self.replicas[r].disk.keys();
+        // the replica has seen every stored item and applied every block it knows: storage holds nothing new
+        let nothing_unapplied_before = !self.replicas[r].time_travel && keys_now == self.replicas[r].seen && status_before.values().all(|s| s == "applied")
+            && keys_now.iter().filter(|k| k.ends_with(".delta")).all(|k| applied_before.contains(k.trim_end_matches(".delta")));
         let api_name = if kind == 0 { "refresh" } else { "reload" };
         let res = {
             let rep = &mut self.replicas[r];
@@ -1098,7 +1102,7 @@ impl World {
                 if self.is(&["C12"]) {
                     // nothing new to apply => nothing may change
                     let st = RefState::from_items(&self.replicas[r].disk.items());
-                    if st.complete == applied_before && before.as_ref().map_or(false, |b| b["doc"] != after["doc"]) {
+                    if (st.complete == applied_before || nothing_unapplied_before) && before.as_ref().map_or(false, |b| b["doc"] != after["doc"]) {
                         viol!(self, "idle-refresh-keeps-document", "refresh-changed-doc", "{} with nothing new in storage changed the document: {}", api_name, diff_digest(before.as_ref().unwrap(), &after));
                     }
                 }
@@ -1184,6 +1188,25 @@ impl World {
             let items = self.replicas[r].disk.items();
             let full = RefState::from_items(&items);
             if !requested.iter().all(|h| full.complete.contains(h)) {
+                if requested.iter().any(|h| !items.contains_key(&format!("{}.delta", h))) {
+                    // a block this replica does not hold at all (a peer's commit not yet received): the
+                    // call is refused; whatever the refusal leaves behind, the next refresh / reload
+                    // shows the state of the storage again (checked at that sync point)
+                    let m = self.live(r);
+                    if !self.call("has_staging", || m.has_staging())? {
+                        let ids = delta_ids(&requested);
+                        let res = self.call("reload_until", || m.reload_until(&ids).map_err(|e| e.to_string()))?;
+                        self.replicas[r].disk.take_log();
+                        self.bump("probe.reload_until_unknown_anchor");
+                        if res.is_ok() && self.is(&["C14", "C13"]) {
+                            viol!(self, "time-travel", "reload-until-unknown-anchor-ok", "reload_until({:?}) succeeded although {:?} is not in this replica's storage", requested, requested.iter().find(|h| !items.contains_key(&format!("{}.delta", h))));
+                        }
+                        self.replicas[r].time_travel = true;
+                        self.replicas[r].fresh = false;
+                        self.replicas[r].model_doc = None;
+                        self.replicas[r].clean_digest = Some(self.digest_of(r)?);
+                    }
+                }
                 return Ok(());
             }
             let st = RefState::from_items_until(&items, Some(&requested));
